@@ -71,8 +71,8 @@ import time
 from checks import oracles
 
 SIZES = {
-    "quick": {"hist": 220, "faultenum": (6, "doubles=1 max=500"), "crashenum": (8, "max=240")},
-    "thorough": {"hist": 4000, "faultenum": (40, "doubles=2 max=9000"), "crashenum": (80, "max=5000")},
+    "quick": {"hist": 220, "faultenum": (6, "doubles=1 max=500 tail=3"), "crashenum": (8, "max=240")},
+    "thorough": {"hist": 4000, "faultenum": (40, "doubles=2 max=9000 tail=5"), "crashenum": (80, "max=5000")},
 }
 
 
